@@ -16,9 +16,15 @@ def plans(tier):
             dict(gens="star", variants="base", n=20000, W=3, nmax=28, bias=0.9, seed=s + 3)]
 
 
+def real_plans(tier):
+    s = vlib.seed()
+    q = tier == "quick"
+    return [dict(real=True, gens="star,hole", variants="base", n=500 if q else 20000, seed=s + 50, where="interior,origin,far,nl")]
+
+
 def run(tier):
     return snapcheck.run_snap_property(
-        PROP, tier, "SnapTrace_C01.cfg", plans(tier),
+        PROP, tier, "SnapTrace_C01.cfg", plans(tier), real_plans=real_plans(tier), real_cfg="RealTrace_C01.cfg",
         rule="random star-shaped / holed / collapse-prone lattice polygons (validity decided by the TLA+ predicate ValidPolygon), "
              "40-95 % of coordinates aligned to pixel borders or centres, 1-3 tile matrices per call, random flags, 5 synthetic grids "
              "at random placements; every pair of returned edges of every tile matrix tested for a proper crossing by TLC",
